@@ -17,6 +17,7 @@ const farStep = uint64(1) << 62
 // ---------------------------------------------------------------- workload
 
 type c18Meta struct {
+	Shape   string // twins | pair | free
 	Policy  string
 	Clients int
 	Shared  string
@@ -62,6 +63,13 @@ func genC18(seed uint64, idx int, thorough bool) (spec.Run, c18Meta) {
 		maxDim = 12
 	}
 	run := spec.Run{Mode: "sched", Seed: seed, Gomaxprocs: meta.Gomax, SortMaps: true}
+	// Run shapes (cycled): shared-state defects usually need the *same* code path in two
+	// clients at once, so one third of the runs are "twins" (every client performs the same
+	// kind of call on the focus codec with the same frame description, different content),
+	// one third pair an encoder with a decoder of the same description, one third are free.
+	meta.Shape = []string{"twins", "pair", "free"}[(idx/(5*len(allTS)))%3]
+	twinKind := []string{"enc", "dec"}[(idx/(15*len(allTS))+idx)%2]
+	sharedInfo := genInfo(wr.Child(7), meta.Focus[0], genOpt{maxDim: maxDim, signed: true})
 	for c := 0; c < nClients; c++ {
 		cr := wr.Child(uint64(100 + c))
 		nOps := 1
@@ -81,12 +89,21 @@ func genC18(seed uint64, idx int, thorough bool) (spec.Run, c18Meta) {
 				ts = spec.Pick(cr, allTS)
 			}
 			force := ""
-			if c < 2 && k == 0 {
-				// the first two clients always meet on the focus codec instance, one encoding, one decoding
+			var useInfo *spec.Info
+			switch {
+			case meta.Shape == "twins" && (k == 0 || cr.Bool()):
+				ts, force, useInfo = meta.Focus[0], twinKind, &sharedInfo
+			case meta.Shape == "pair" && c < 2 && k == 0:
+				ts, force, useInfo = meta.Focus[0], []string{"enc", "dec"}[c%2], &sharedInfo
+			case c < 2 && k == 0:
+				// the first two clients always meet on the focus codec instance
 				ts = meta.Focus[0]
-				force = []string{"enc", "dec"}[(c+idx/(5*len(allTS)))%2]
+				force = []string{"enc", "dec"}[(c+idx)%2]
 			}
 			op := genC18Op(cr, ts, meta, maxDim, thorough, force)
+			if useInfo != nil && (op.Kind == "enc" || op.Kind == "dec") {
+				op.Info = *useInfo
+			}
 			op.Obj = k + 1
 			t.Ops = append(t.Ops, op)
 		}
@@ -340,17 +357,18 @@ func pinCandidates(b *Build, run *spec.Run, ti int, tl []taskLine, rc *refCache,
 			}
 		}
 		other = append(other, pinCand{step: base + 1}, pinCand{step: base + e.res.Steps})
-		if e.res.Steps > 4 {
+		for k := 0; k < 6 && e.res.Steps > 4; k++ {
 			other = append(other, pinCand{step: base + 1 + r.U64()%e.res.Steps})
 		}
 	}
-	// write-hot sites first (4/6), read-hot (1/6), entry/exit/random (1/6)
-	switch x := r.Intn(6); {
+	// write-hot sites (4/10), read-hot (2/10), entry/exit/uniformly random step (4/10): the
+	// last class is what finds sharing the instrumenter cannot recognise (pools, aliases)
+	switch x := r.Intn(10); {
 	case x < 4 && len(w) > 0:
 		return w
-	case x == 4 && len(rd) > 0:
+	case x < 6 && len(rd) > 0:
 		return rd
-	case len(other) > 0 && (x == 5 || len(w) == 0):
+	case len(other) > 0 && (x >= 6 || len(w) == 0):
 		return other
 	case len(w) > 0:
 		return w
@@ -672,7 +690,7 @@ func checkC18(o checkOpts) int {
 	}
 	calibrate(b)
 	thorough := o.tier == "thorough"
-	N := o.n(240, 20000)
+	N := o.n(280, 20000)
 	findings := loadFindings()
 
 	runs := make([]spec.Run, N)
@@ -768,7 +786,10 @@ func checkC18(o checkOpts) int {
 		}
 		nViol++
 		exit = 1
-		mv, minNote := minimiseC18(b, v, rc)
+		mv, minNote := v, "not minimised: only the first 4 signatures of a run are minimised"
+		if nViol <= 4 {
+			mv, minNote = minimiseC18(b, v, rc)
+		}
 		rep := reproduce(b, &mv, rc, 2)
 		p := writeReplay(&mv, rep, b.Tree, minNote)
 		fmt.Printf("VIOLATION property=C18 replay=%s\n", p)
@@ -791,7 +812,7 @@ func checkC18(o checkOpts) int {
 	wall := w.secs()
 	samples := []interface{}{}
 	for i := 0; i < N && i < 3; i++ {
-		samples = append(samples, map[string]interface{}{"seed": runs[i].Seed, "policy": metas[i].Policy, "clients": metas[i].Clients,
+		samples = append(samples, map[string]interface{}{"seed": runs[i].Seed, "shape": metas[i].Shape, "policy": metas[i].Policy, "clients": metas[i].Clients,
 			"shared": metas[i].Shared, "pins": metas[i].Pins, "ops": describeOps(&runs[i]), "segments": len(runs[i].Schedule), "switches_executed": outs[i].switches})
 	}
 	ev := &Evidence{PropertyID: "C18", Tier: o.tier, Seed: int64(o.seed), Level: "exploration", WallS: wall, Violations: nViol,
